@@ -242,6 +242,7 @@ func init() {
 			{"counter-monotonic", "note and numbering id counters only ever increase", ruleCounterMonotonic("FootnoteManager", "NumberingManager")},
 			{"item-config-flow", "each list item's numbering comes from that item's own configuration on every path", ruleItemConfigFlow},
 			{"registry-key-fresh", "ids under which notes and numbering instances are registered come from a counter of the registry, never from its current size", ruleRegistryKeyFresh},
+			{"heading-per-element", "whether a heading becomes a TOC entry depends on that heading and the requested level only (no loop-carried filter in the collecting loops)", ruleHeadingPerElement},
 			{"clone-cover (registries)", "the per-document note and numbering registries are copied field by field when a document is derived from another", filtered(ruleCloneDocument, "FootnoteManager", "NumberingManager")},
 		},
 		Assumptions: commonAssumptions,
@@ -252,6 +253,7 @@ func init() {
 		NotDecided:  "everything else about what the regular expressions match (nesting, adjacency, greedy interaction)",
 		Rules: []Rule{
 			{"regex-lazy", "always-empty capture groups that are consumed", ruleRegexLazy},
+			{"regex-dotall-nested", "a pattern applied to text captured by a dot-all group is itself dot-all (regexp/syntax trees + data flow from the submatch)", ruleRegexDotallNested},
 			{"pass-order", "value-inserting passes precede no directive-interpreting pass", rulePassOrder},
 			{"closure-ret", "unknown variables stay", ruleClosureRet},
 			{"regex-repl-literal", "run-time strings never become an expanding regexp replacement ($-interpretation)", ruleRegexReplLiteral},
